@@ -44,7 +44,6 @@ void *ut_calloc(size_t n) { CHECK(n <= 16, "harness: calloc size"); char *p = ma
 /* the only user is slist.c's array of string pointers: copied element-wise (byte-wise pointer copies are expensive to bit-blast) */
 void *ut_realloc(void *o, size_t n) { CHECK(n <= 4 * sizeof(char *), "harness: list size"); char **p = malloc(4 * sizeof(char *)); ASSUME(p != NULL); if (o != NULL) { for (int i = 0; i < 4; i++) p[i] = ((char **)o)[i]; free(o); } return p; }
 void ut_free(void *p) { free(p); }
-char *strchrnul(const char *s, int c) { while (*s && *s != (char)c) s++; return (char *)s; }     /* glibc extension; CBMC has no model */
 #ifdef VERIF_CBMC
 void *memcpy(void *d, const void *s, size_t n) { for (size_t i = 0; i < 8; i++) if (i < n) ((char *)d)[i] = ((const char *)s)[i]; CHECK(n <= 8, "harness: memcpy bound"); return d; }
 #endif
